@@ -81,24 +81,21 @@ Qed.
 Lemma same_on_fill now v : same_on (data_cols ++ [CCat; CUat]) (fill_times now v) (fill_times now v) = true.
 Proof. apply same_on_refl. Qed.
 
-Lemma rule_row_spec now ru ex old row : rule_row now ru ex old row ->
-  match ru with
-  | RNothing => rec_eqb row old = true
-  | RUpdates cols => forallb (fun c => val_eqb (get_col c row)
-                                (if mem_col c cols then get_col c ex else get_col c old)) all_cols = true
-  | RAll => same_on data_cols row ex = true
-  end.
-Proof.
-  destruct ru as [|cols|]; cbn [rule_row].
-  - intros ->. apply rec_eqb_refl.
-  - intros H. apply forallb_forall. intros c _. rewrite H. apply val_eqb_refl.
-  - intros H. unfold same_on. apply forallb_forall. intros c Hc. rewrite H.
-    destruct Hc as [<-|[<-|[<-|[<-|[]]]]]; apply val_eqb_refl.
-Qed.
-
 Lemma same_on_data_fill now row v :
   same_on data_cols row (fill_times now v) = same_on data_cols row v.
 Proof. destruct v, row; reflexivity. Qed.
+
+Lemma coll_ok_rule now ru v old row : rule_row now ru (fill_times now v) old row ->
+  coll_ok ru v (fill_times now v) old row (if rule_fires ru old then 1 else 0) = true.
+Proof.
+  induction ru as [|cols| |k r IH|k r IH]; cbn [rule_row coll_ok rule_fires].
+  - intros ->. now rewrite rec_eqb_refl.
+  - intros H. rewrite andb_true_r. apply forallb_forall. intros c _. rewrite H. apply val_eqb_refl.
+  - intros H. rewrite andb_true_r, <- (same_on_data_fill now). unfold same_on. apply forallb_forall.
+    intros c Hc. rewrite H. destruct Hc as [<-|[<-|[<-|[<-|[]]]]]; apply val_eqb_refl.
+  - destruct (r_age old <? k); cbn [andb]; [exact IH|]. intros ->. now rewrite rec_eqb_refl.
+  - exact IH.
+Qed.
 
 Theorem upsert_meets_spec t now ru v : wf t ->
   spec_upsert t now ru v (obs_of_result (create t now (Some ru) v)) = true.
@@ -118,14 +115,10 @@ Proof.
     rewrite E, WR, (others_same_of _ _ _ O). cbn [negb andb]. cbn [Z.leb Z.compare Pos.compare Pos.compare_cont].
     destruct (lookup t (r_id v)) as [old|] eqn:L.
     + destruct M as ((row & Lr & RR) & _). rewrite Lr.
-      pose proof (rule_row_spec _ _ _ _ _ RR) as RS.
-      assert (RAeq : res_ra (create t now (Some ru) v) = match ru with RNothing => 0 | _ => 1 end).
+      assert (RAeq : res_ra (create t now (Some ru) v) = if rule_fires ru old then 1 else 0).
       { unfold create. rewrite fill_times_id. destruct (r_id v =? 0) eqn:X; [apply Z.eqb_eq in X; congruence|].
-        rewrite L. destruct ru; reflexivity. }
-      rewrite RAeq. destruct ru as [|cols|]; cbn [andb].
-      * now rewrite RS.
-      * now rewrite RS.
-      * rewrite same_on_data_fill in RS. now rewrite RS.
+        rewrite L. destruct (rule_fires ru old); reflexivity. }
+      rewrite RAeq. now apply coll_ok_rule.
     + destruct M as (Lr & _). rewrite Lr. cbn [negb orb andb].
       rewrite same_on_refl. cbn [andb].
       unfold create. rewrite fill_times_id. destruct (r_id v =? 0) eqn:X; [apply Z.eqb_eq in X; congruence|].
